@@ -225,6 +225,7 @@ func runC19(c *vk.Ctx) {
 			// a third of the rounds run with the engine's debug features on (state flag names from the process-wide
 			// state.FlagDebugger registry in every state string, engine.SimpleDebug after every execution)
 			cfg.Debug = i%3 == 2
+			cfg.StoreSession = (i/8)%2 == 1 // the session is also selected on the store handle (db.SetSession)
 			h := a.History(r, r.Range(3, 14))
 			for x := range h {
 				if x > 0 && r.Chance(1, 12) {
